@@ -60,6 +60,11 @@ Eval(n, tags) == LET x == cfg.nodes[n] IN
      [] x.op = "and"  -> Eval(x.a, tags) /\ Eval(x.b, tags)
      [] x.op = "or"   -> Eval(x.a, tags) \/ Eval(x.b, tags)
 TagMatch(el) == Eval(cfg.root, Eff(el)) /\ (cfg.wip => "wip" \in Eff(el))
+\* --name: cfg.name_on, cfg.namesel = the scenarios (plain ones and outline rows) whose name matches one of the patterns;
+\* an outline is selected by name if one of its rows is
+RECURSIVE NameMatch(_)
+NameMatch(el) == ~cfg.name_on \/ (IF prog[el].kind = "outline" THEN \E k \in DOMAIN prog[el].children : NameMatch(prog[el].children[k])
+                                  ELSE \E k \in DOMAIN cfg.namesel : cfg.namesel[k] = el)
 RECURSIVE RunWithTags(_)
 RunWithTags(el) ==        \* should_run_with_tags of containers and outlines: own match or any child's
    IF prog[el].kind = "scenario" THEN TagMatch(el)
@@ -280,8 +285,16 @@ CItems ==
       IF Top.i > Len(prog[el].children) THEN stack' = SetTop([Top EXCEPT !.pc = "finish"])
       ELSE LET c == prog[el].children[Top.i]
                fn == IF prog[c].kind \in {"feature", "rule"} THEN "container" ELSE prog[c].kind IN
-           stack' = PushOn(SetTop([Top EXCEPT !.pc = "item_ret"]), Frame(fn, c))
-   /\ U(<<inputs, ret, model, rt, ctx, cap, evlog>>)
+           \* a scenario / outline that --name does not select is marked skipped and passed over (rules are always entered)
+           IF prog[c].kind \in {"scenario", "outline"} /\ ~NameMatch(c)
+           THEN stack' = SetTop([Top EXCEPT !.i = Top.i + 1])
+           ELSE stack' = PushOn(SetTop([Top EXCEPT !.pc = "item_ret"]), Frame(fn, c))
+   /\ LET el == Top.el IN
+      IF Top.i <= Len(prog[el].children) /\ prog[prog[el].children[Top.i]].kind \in {"scenario", "outline"} /\ ~NameMatch(prog[el].children[Top.i])
+      THEN LET c == prog[el].children[Top.i] IN
+           /\ shouldSkip' = SkipFlags(c) /\ stepst' = SkipSteps(c) /\ forced' = SkipForced(c) /\ U(hookFailed)
+      ELSE U(model)
+   /\ U(<<inputs, ret, rt, ctx, cap, evlog>>)
 
 CItemRet ==
    /\ Top.fn = "container" /\ Top.pc = "item_ret"
@@ -353,7 +366,7 @@ Steps(el) == prog[el].steps
 SEnter ==
    /\ Top.fn = "scenario" /\ Top.pc = "enter"
    /\ LET el == Top.el
-          run == ~shouldSkip[el] /\ TagMatch(el) IN
+          run == ~shouldSkip[el] /\ TagMatch(el) /\ NameMatch(el) IN
       /\ hookFailed' = [hookFailed EXCEPT ![el] = FALSE]
       /\ forced' = [forced EXCEPT ![el] = "none"]
       /\ evlog' = IF cfg.retry THEN Append(evlog, Ev("attempt", "", el, "", FALSE, 0, "", "", FALSE, 0, TRUE, TRUE)) ELSE evlog
